@@ -88,7 +88,12 @@ def race_run(ctx, shards):
             reports += [b for b in open(f, errors="replace").read().split("==================") if "DATA RACE" in b]
         mine, other = [], {}
         for b in reports:
-            frames = re.findall(r"\s(/\S+\.go:\d+)", b)
+            # the innermost non-runtime frame of each of the two conflicting accesses
+            acc = [st for st in b.split("\n\n") if re.search(r"(?m)^\s*(Previous )?(atomic )?([Rr]ead|[Ww]rite) at", st)]
+            frames = []
+            for st in acc:
+                fr = [x for x in re.findall(r"\s(/\S+\.go:\d+)", st) if "/src/runtime/" not in x and "/src/sync/" not in x]
+                frames += fr[:1]
             if any(any(x in fr for x in C02_FILES) for fr in frames):
                 mine.append(b)
             else:
